@@ -33,7 +33,7 @@ func Scan(data string, loc SourceLoc, delims []string) (tokens []Token) {
 		}
 		source := data[ts:te]
 		switch {
-		case strings.HasPrefix(source, delims[0]):
+		case m[2] >= 0: // the object alternative matched: its group took part
 			if source[len(delims[0])] == '-' {
 				tokens = append(tokens, Token{
 					Type: TrimLeftTokenType,
@@ -50,7 +50,7 @@ func Scan(data string, loc SourceLoc, delims []string) (tokens []Token) {
 					Type: TrimRightTokenType,
 				})
 			}
-		case strings.HasPrefix(source, delims[2]):
+		case m[4] >= 0: // the tag alternative matched
 			if source[len(delims[2])] == '-' {
 				tokens = append(tokens, Token{
 					Type: TrimLeftTokenType,
